@@ -891,14 +891,15 @@ class Enum(Generic, PrimitiveType):
 
   def __init__(
       self,
-      default: typing.Any,
-      values: typing.List[typing.Any],
+      default: typing.Any = MISSING_VALUE,
+      values: typing.Optional[typing.List[typing.Any]] = None,
       frozen: bool = False,
   ):
     """Constructor.
 
     Args:
-      default: default value for this spec.
+      default: default value for this spec. `MISSING_VALUE` for an enum without
+        default (`to_json` omits it then, so it is optional by keyword).
       values: all acceptable values.
       frozen: If True, values other than the default value is not accceptable.
     """
